@@ -41,27 +41,35 @@ structure Inj where
   ranges : List (Nat × Nat)
   deriving Repr
 
-def inRanges (R : List (Nat × Nat)) (a b : Nat) : Bool :=
-  (R.any fun (s, e) => (s ≤ a && a < e) || (a == b && s ≤ a && a ≤ e)) &&
-  (R.any fun (s, e) => (s < b && b ≤ e) || (a == b && s ≤ b && b ≤ e))
+/-- `(position, highlight)` of every `Start` event, in stream order (position = end of the last `Source`). -/
+def startsFrom : Nat → List Ev → List (Nat × Nat)
+  | _, [] => []
+  | _, .source _ e :: r => startsFrom e r
+  | pos, .start h :: r => (pos, h) :: startsFrom pos r
+  | pos, .stop :: r => startsFrom pos r
 
-/-- `langOf h` = language id of highlight `h` (0 = the root language, exempt). -/
+def starts (evs : List Ev) : List (Nat × Nat) := startsFrom 0 evs
+
+/-- Clause 2.  `langOf h` = language id of highlight `h` (0 = the root language, exempt).  Every
+span of an injected language must START inside a content range of an injection of that language.
+(Only starts are attributable: `End` events carry no highlight, and spans of different layers may
+overlap improperly with combined injections, so an `End` cannot be matched to its `Start`.) -/
 def judgeInjected (langOf : Nat → Nat) (injs : List Inj) (evs : List Ev) : Bool :=
-  (spans evs).all fun (a, b, h) =>
-    langOf h == 0 || injs.any fun i => i.lang == langOf h && inRanges i.ranges a b
+  (starts evs).all fun (a, h) =>
+    langOf h == 0 || injs.any fun i => i.lang == langOf h && i.ranges.any fun (s, e) => s ≤ a && a < e
 
-/-- Innermost highlight whose span is exactly `[a,b)`, if any (the last `Start` at `a` whose `End` is at `b`). -/
-def highlightOfRange (sp : List (Nat × Nat × Nat)) (a b : Nat) : Option Nat :=
-  (sp.find? fun (s, e, _) => s == a && e == b).map fun (_, _, h) => h
+/-- The last highlight started at position `p` (the innermost one of the shallowest layer). -/
+def lastStartAt (st : List (Nat × Nat)) (p : Nat) : Option Nat :=
+  ((st.filter fun x => x.1 == p).getLast?).map (·.2)
 
-/-- A resolved local reference `(refStart, refEnd, defStart, defEnd)` must carry the definition's
-highlight (both taken as the innermost highlight of exactly that range; a definition without a
-highlight imposes nothing). -/
+/-- Clause 4.  A resolved local reference `(refStart, refEnd, defStart, defEnd)` of the root layer
+must carry the definition's highlight (both are leaves of the root layer, so each one's highlight
+is the last `Start` at its first byte; a definition without a highlight imposes nothing). -/
 def judgeLocals (pairs : List (Nat × Nat × Nat × Nat)) (evs : List Ev) : Bool :=
-  let sp := spans evs
-  pairs.all fun (rs, re, ds, de) =>
-    match highlightOfRange sp ds de with
+  let st := starts evs
+  pairs.all fun (rs, _, ds, _) =>
+    match lastStartAt st ds with
     | none => true
-    | some h => highlightOfRange sp rs re == some h
+    | some h => lastStartAt st rs == some h
 
 end TsVerif.C17
